@@ -695,7 +695,10 @@ class MarkovNetwork(UndirectedGraph):
             # Create a Junction Tree from the Markov Model.
             # Creation of Clique Tree involves triangulation, finding maximal cliques
             # and creating a tree from these cliques
-            junction_tree = MarkovNetwork(subgraph.edges()).to_junction_tree()
+            component = MarkovNetwork(subgraph.edges())
+            # A component may be a single node without any edge.
+            component.add_nodes_from(subgraph.nodes())
+            junction_tree = component.to_junction_tree()
 
             # create an ordering of the nodes based on the ordering of the clique
             # in which it appeared first
